@@ -12,7 +12,10 @@ Stage 3: oracles on the implementation, independent of the model:
   (b) eval(backend=...) / get_counts(backend=...) on a mock backend returning the
       exact frequencies == local evaluation
   (c) from_tk(to_tk(c)) has the same evaluation
-  (d) from_tk of random tket circuits computes that circuit.
+  (d) from_tk of random tket circuits computes that circuit -- plain pytket circuits, and
+      discopy tk.Circuits with a post-selection whose post-selected Measure is / is not the
+      last command on its qubit (F41) and whose post-selected bits are / are not written by a single
+      Measure (F42); both recognised by independent predicates on the commands.
 """
 import json
 import os
@@ -50,6 +53,12 @@ FINDINGS = {
            "tket overrides the raw register, and the post-processing is applied to the new value afterwards",
     "F35": "Circuit.get_counts(backend=...) / tk.Circuit.get_counts never apply post_processing "
            "(only Circuit.eval(backend=...) does)",
+    "F41": "from_tk defers every post-selected Measure to the end of the imported circuit (bras[qubit], 'post selection "
+           "happens at the end') even when the qubit is used afterwards: a later gate or measurement on that qubit "
+           "acts before the Bra, and a second post-selected Measure of the same qubit overwrites the first",
+    "F42": "from_tk turns EVERY Measure into a post-selected bit into a Bra, although tket post-selects the final value "
+           "of the bit only: when a post-selected bit is written by more than one Measure the earlier measurements "
+           "are post-selected too",
     "F36": "to_tk does not update the `bits` register list for classical gates (or Bits effects) that change "
            "the number of bits: later preparations / swaps / discards index a stale list",
 }
@@ -290,6 +299,113 @@ def gen_tk(rng, tk):
     return c
 
 
+def gen_tk_psel(rng, tk):
+    """A random tket circuit WITH a post-selection, in the raw form [nq, nb, commands, post_selection].
+    Every post-selected bit is written by some Measure (a post-selection on a bit that is never written
+    has no defined import and is outside this stream).
+    late=True appends gates / measurements after the measurements, so that in many of these circuits a
+    post-selected Measure is NOT the last command on its qubit (the F41 trigger).
+    overwrite=True (one in four) lets several Measures write the same bit, so that in many of these a
+    post-selected bit is written more than once (the F42 trigger); otherwise every bit is written at most once."""
+    import tksim
+    nq = rng.randint(1, 4)
+    nb = rng.randint(1, min(nq + 1, 4))
+    late = rng.random() < 0.45
+    overwrite = rng.random() < 0.25
+    c = tk.Circuit(nq, nb)
+
+    def gate():
+        if nq >= 2 and rng.random() < 0.4:
+            g = rng.choice(["CX", "CX", "CZ", "CRz"])
+            a, b = rng.sample(range(nq), 2)
+            if g == "CRz":
+                c.CRz(rng.randint(-40, 40) / 16.0, a, b)
+            else:
+                getattr(c, g)(a, b)
+        else:
+            g = rng.choice(["H", "H", "S", "T", "X", "X", "Y", "Z", "Rx", "Rz"])
+            q = rng.randrange(nq)
+            if g in ("Rx", "Rz"):
+                getattr(c, g)(rng.randint(-40, 40) / 16.0, q)
+            else:
+                getattr(c, g)(q)
+
+    for _ in range(rng.randint(1, 6)):
+        gate()
+    bits = list(range(nb))
+    rng.shuffle(bits)
+    if overwrite:
+        bits = [rng.randrange(nb) for _ in range(rng.randint(2, nb + 2))]
+        qubits = [rng.randrange(nq) for _ in bits] if late else \
+            (rng.sample(range(nq), min(nq, len(bits))) + [rng.randrange(nq) for _ in bits])[:len(bits)]
+    else:                                        # every bit is written at most once
+        qubits = [rng.randrange(nq) for _ in bits] if late and rng.random() < 0.4 else \
+            rng.sample(range(nq), min(nq, nb))
+    written = []
+    for q, b in zip(qubits, bits):
+        c.Measure(q, b)
+        if b not in written:
+            written.append(b)
+        if late and rng.random() < 0.5:
+            gate()
+    if late:
+        for _ in range(rng.randint(1, 3)):
+            gate()
+    k = rng.randint(1, len(written))
+    psel = sorted([b, rng.randint(0, 1)] for b in rng.sample(written, k))
+    return [nq, nb, [[n, p, q, b] for n, p, q, b in tksim.commands(c)], psel]
+
+
+def f41_trigger(cmds, psel_keys):
+    """Independent statement of the trigger of F41 on the command list from_tk iterates over (model
+    format [op, par, qubits, bits], op 0 = Measure): some post-selected Measure is followed by a later
+    command on the same qubit."""
+    for i, (op, _, qs, bs) in enumerate(cmds):
+        if op == 0 and qs and bs and bs[0] in psel_keys:
+            if any(qs[0] in later[2] for later in cmds[i + 1:]):
+                return True
+    return False
+
+
+def f42_trigger(cmds, psel_keys):
+    """Independent statement of the trigger of F42: some post-selected bit is written by more than one
+    Measure command."""
+    writes = {}
+    for op, _, qs, bs in cmds:
+        if op == 0 and bs and bs[0] in psel_keys:
+            writes[bs[0]] = writes.get(bs[0], 0) + 1
+    return any(n >= 2 for n in writes.values())
+
+
+# hand-written post-selected tket circuits: [nq, nb, commands, post_selection]
+PSEL_CORPUS = [
+    # F41: tk.Circuit(1, 1, post_selection={0: 0}).Measure(0, 0).X(0)
+    [1, 1, [["Measure", [], [0], [0]], ["X", [], [0], []]], [[0, 0]]],
+    # F41: tk.Circuit(1, 2, post_selection={0: 0}).H(0).Measure(0, 0).X(0).Measure(0, 1)
+    [1, 2, [["H", [], [0], []], ["Measure", [], [0], [0]], ["X", [], [0], []], ["Measure", [], [0], [1]]], [[0, 0]]],
+    # F41 (same trigger): tk.Circuit(1, 2, post_selection={0: 0, 1: 1}).H(0).Measure(0, 0).Measure(0, 1)
+    [1, 2, [["H", [], [0], []], ["Measure", [], [0], [0]], ["Measure", [], [0], [1]]], [[0, 0], [1, 1]]],
+    # control, every post-selected Measure last on its qubit:
+    # tk.Circuit(2, 2, post_selection={0: 0}).H(0).CX(0, 1).Measure(0, 0).X(1).Measure(1, 1)
+    [2, 2, [["H", [], [0], []], ["CX", [], [0, 1], []], ["Measure", [], [0], [0]], ["X", [], [1], []],
+            ["Measure", [], [1], [1]]], [[0, 0]]],
+    # F42: tk.Circuit(2, 1, post_selection={0: 0}).H(0).Measure(0, 0).Measure(1, 0)
+    [2, 1, [["H", [], [0], []], ["Measure", [], [0], [0]], ["Measure", [], [1], [0]]], [[0, 0]]],
+    # F41 and F42: tk.Circuit(1, 1, post_selection={0: 1}).H(0).Measure(0, 0).X(0).Measure(0, 0)
+    [1, 1, [["H", [], [0], []], ["Measure", [], [0], [0]], ["X", [], [0], []], ["Measure", [], [0], [0]]], [[0, 1]]],
+    # control for F42: the KEPT bit 0 is written twice, the post-selected bit 1 once (last on its qubit):
+    # tk.Circuit(2, 2, post_selection={1: 0}).H(0).Measure(0, 0).Measure(1, 0).Measure(0, 1)
+    [2, 2, [["H", [], [0], []], ["Measure", [], [0], [0]], ["Measure", [], [1], [0]], ["Measure", [], [0], [1]]],
+     [[1, 0]]],
+    # control: everything post-selected, a scalar comes out
+    [2, 2, [["H", [], [0], []], ["CX", [], [0, 1], []], ["Measure", [], [1], [0]], ["Measure", [], [0], [1]]],
+     [[0, 1], [1, 1]]],
+    # control: post-selected bit above a kept bit (bit register shrinks, F18 repaired)
+    [3, 3, [["H", [], [0], []], ["CX", [], [0, 2], []], ["Measure", [], [2], [0]], ["Measure", [], [0], [2]],
+            ["X", [], [1], []], ["Measure", [], [1], [1]]], [[0, 1]]],
+]
+
+
 CORPUS = [
     # (name, program)
     ("bell", [[], [[[0, [0, 0]], 0], [[3, 1, 1, 0, 0], 0], [[3, 7, 2, 0, 0], 0], [[5, 2, 1, 0], 0]]]),
@@ -526,6 +642,12 @@ def check_import(rep, ti, tksim, tkc, want, payload, family, f32=False):
     payload = dict(payload, tk=repr(tkc), tk_model_input=prog2, from_tk_impl=impl, from_tk_model=model,
                    model_trace_ok=trace_ok, model_routing_ok=routing_ok, f18_trigger=f18, f33_trigger=f33)
     psel = bool(prog2[0][3])
+    f41 = psel and f41_trigger(prog2[0][2], {k for k, _ in prog2[0][3]})
+    f42 = psel and f42_trigger(prog2[0][2], {k for k, _ in prog2[0][3]})
+    pname = "+".join(n for n, on in (("F41", f41), ("F42", f42)) if on) or "no-trigger"
+    if psel:
+        rep.count(family + ":post-selected:" + (pname + "-trigger" if f41 or f42 else pname))
+    payload["f41_trigger"], payload["f42_trigger"] = bool(f41), bool(f42)
 
     def known_or_violation(what):
         trig = []
@@ -533,6 +655,10 @@ def check_import(rep, ti, tksim, tkc, want, payload, family, f32=False):
             trig.append("F18")
         if f33 and not trace_ok and not FIXED["F33"]:
             trig.append("F33")
+        if f41 and not trace_ok:            # the model's imported trace is not the tket order
+            trig.append("F41")
+        if f42:     # no model verdict: the trace statement does not see bits (from_tk_trace_ok is true on the
+            trig.append("F42")   # witness) and from_tk_routing_ok is only meaningful without post-selection
         if agree and trig:
             for fid in trig:
                 rep.known_finding(fid, FINDINGS[fid])
@@ -568,6 +694,10 @@ def check_import(rep, ti, tksim, tkc, want, payload, family, f32=False):
         rep.extra.setdefault("numerically_invisible", []).append([repr(tkc), trace_ok, routing_ok])
     elif not psel:
         rep.count(family + ":model-trace-and-routing-ok")
+    elif f41 or f42:
+        rep.count(family + ":post-selected:" + pname + "-trigger-but-numerically-equal")
+    else:
+        rep.count(family + ":post-selected:no-trigger:oracle-pass")
 
 
 def replay(kind, payload):
@@ -594,8 +724,9 @@ def replay(kind, payload):
         import pytket as tk
         from discopy.quantum.circuit import Circuit
         t = build_tk(tk, payload)
-        print("tket:", t.get_commands())
-        print("distribution:", np.round(tksim.distribution(ti.dtk.Circuit.upgrade(t)), 6).tolist())
+        print("tket:", t.get_commands(), "post_selection:", getattr(t, "post_selection", {}))
+        up = t if isinstance(t, ti.dtk.Circuit) else ti.dtk.Circuit.upgrade(t)
+        print("distribution:", np.round(tksim.distribution(up), 6).tolist())
         c2 = Circuit.from_tk(t)
         print("from_tk:", c2)
         print("own eval of import:", np.round(tksim.dsim(c2), 6).tolist())
@@ -651,10 +782,10 @@ def _worker(job):
             t = build_tk(tk, raw)
             rep.case(["import", raw], nontrivial=len(raw[2]) >= 2,
                      sample={"stream": "tket", "tk": repr(raw)})
-            rep.count("stream:tket")
+            rep.count("stream:tket" + ("-post-selected" if len(raw) > 3 and raw[3] else ""))
             payload = {"tk_raw": raw, "replay": snippet("import", raw)}
             try:
-                up = dtk.Circuit.upgrade(t)
+                up = t if isinstance(t, dtk.Circuit) else dtk.Circuit.upgrade(t)
                 want = tksim.distribution(up)
                 check_import(rep, ti, tksim, t, want, payload, "tket")
             except common.CaseTimeout:
@@ -666,8 +797,14 @@ def _worker(job):
 
 
 def build_tk(tk, raw):
-    nq, nb, cmds = raw
-    t = tk.Circuit(nq, nb)
+    """[nq, nb, commands] -> a plain pytket circuit; [nq, nb, commands, post_selection] with a non-empty
+    post_selection -> a discopy.quantum.tk.Circuit carrying it (post_processing = Id on the kept bits)."""
+    nq, nb, cmds = raw[:3]
+    if len(raw) > 3 and raw[3]:
+        import tk_impl as ti
+        t = ti.dtk.Circuit(nq, nb, post_selection={int(k): int(v) for k, v in raw[3]})
+    else:
+        t = tk.Circuit(nq, nb)
     for name, params, qs, bs in cmds:
         getattr(t, name)(*(list(params) + list(qs) + list(bs)))
     return t
@@ -718,6 +855,10 @@ def run(tier, seed):
     for t in hand + [gen_tk(rng, tk) for _ in range(n_tk)]:
         raws.append([t.n_qubits, len(t.bits), [[n, p, q, b] for n, p, q, b in tksim.commands(t)]])
 
+    # (d') tket circuits with a post-selection: the post-selected Measure is / is not last on its qubit
+    n_psel = 150 if quick else 1000
+    raws += [list(r) for r in PSEL_CORPUS] + [gen_tk_psel(rng, tk) for _ in range(n_psel)]
+
     common.ensure_runner("tk")
     workers = 8
     jobs = [("export", items[k::workers]) for k in range(workers)] + \
@@ -748,8 +889,12 @@ def run(tier, seed):
              "offset; %d random circuits grown forwards (<= 3 live qubits, <= 3 live bits, preparations / "
              "post-selections / measurements / swaps at any depth, phases k/16), half of them 'clean' (bits only "
              "added at the right end), one in seven from a malformed / non-exportable stream; from_tk: the export "
-             "of every circuit above and %d random tket circuits (<= 4 qubits, <= 3 bits); non-trivial = at least "
-             "two layers / commands; distinct by program" % (3 if quick else 4, n_rand, n_tk),
+             "of every circuit above, %d random tket circuits (<= 5 qubits, <= 3 bits) and %d random tket circuits "
+             "with a post-selection on bits that some Measure writes (<= 4 qubits, <= 4 bits; in about half "
+             "of them gates / measurements follow the measurements, so that a post-selected Measure is not the "
+             "last command on its qubit; in a quarter several Measures may write the same bit) plus nine "
+             "hand-written ones; non-trivial = at least "
+             "two layers / commands; distinct by program" % (3 if quick else 4, n_rand, n_tk, n_psel),
         trusted_base=[
             "Coq 8.16.1 kernel (coqc full .vo build; vm_compute only in closed refutation witnesses and Examples)",
             "hand-written Gallina model coq/Tk/Tk.v of discopy/quantum/tk.py (to_tk, from_tk, Circuit wrapper) and "
